@@ -15,7 +15,8 @@ PROPERTY = "C08"
 RULE = ("Triangulated surfaces: well-shaped (min angle >= 8 deg) closed (tetra/octa/icosahedron, bipyramids, antiprisms, tori) and "
         "bordered (grids, cylinders, fans, strips, polygons; 1-3 splits, flips, edge splits, face deletions) surfaces and Delaunay "
         "disks (planar or with a height field), optionally midpoint-subdivided once or twice (<= 600 faces), orientation "
-        "reversed, rigidly moved, uniformly scaled (0.05 / 1 / 20), with an unreferenced trailing vertex in 1/10 of the cases; x "
+        "reversed, rigidly moved, uniformly scaled (1e-6 ... 1e6: 1 / 0.05 / 20 / 1e-3 / 1e-4 / 1e-6 / 1e3 / 1e6, tolerances relative), integer lattices whose "
+        "coordinates are handed over as numpy int64 / python ints, with an unreferenced trailing vertex in 1/10 of the cases; x "
         "state option (nothing cached / corner angles cached, which switches the cotangent formula) x neighbourhood sorting on/off x "
         "a shuffled order of the operator groups on one shared mesh object (so cached area / cotan attributes are met in every order). On every mesh ALL options are swept: laplacian cotan/uniform/(vertex "
         "connection, order 1,2,4), gradient complex and real in SurfaceConnectionFaces (and FlatConnectionFaces on planar "
@@ -42,11 +43,68 @@ ASSUMPTIONS = ["surfaces are oriented manifold triangulations with min angle >= 
                "takes |cot| of each dihedral angle (values on meshes with an obtuse dihedral angle are not asserted)",
                "the connection Laplacian (laplacian(connection=SurfaceConnectionVertices)) is only checked to be Hermitian with the "
                "moduli / diagonal of the scalar Laplacian; a failure to build the vertex connection is discarded, not reported",
+               "integer-typed coordinates (numpy int64 rows / python ints) are in the domain only up to |coordinate| <= 2e4: the library "
+               "keeps them as int64 vectors, and with coordinates around 1e6 its cross products / squared norms overflow int64 "
+               "silently (observed: wrong areas, cotangents, gradients, NaN in the feature detector) - a matter of vertex ingestion "
+               "(C02), not asserted here",
                "an unreferenced trailing vertex is in the domain of the |V|-sized operators (laplacian, graph operators, gradient); "
                "mass matrices are not checked on such meshes (zero mass is outside 'positive diagonal')"]
 
 TOL = 1e-9
 FORMATS = ["csc", "csr", "coo", "lil", "dia"]
+# every operator is covariant under uniform scaling (L: s^0, G: s^-1, area: s^2, volume: s^3): millimetre / micrometre sized
+# and kilometre sized objects are in the domain; all tolerances are relative
+SCALES = [1.0, 1.0, 1.0, 0.05, 20.0, 1e-3, 1e-4, 1e-6, 1e3, 1e6]
+
+
+def scale_label(s):
+    return "scale=1" if s == 1.0 else "scale=tiny(<=1e-3)" if s <= 1e-3 else "scale=huge(>=1e3)" if s >= 1e3 else f"scale={s}"
+
+
+def all_integral(V):
+    """integral coordinates small enough that products of three coordinate differences, squared, stay far inside int64
+    (the library keeps integer vertices as int64 Vec; larger integer coordinates overflow silently - see ASSUMPTIONS)"""
+    return all(float(x).is_integer() and abs(x) <= 2e4 for v in V for x in v)
+
+
+def build_surface(V, F, int_mode):
+    """int_mode: None (floats) / 'numpy' (int64 rows) / 'python' (lists of int)"""
+    if not int_mode:
+        return surface_from(V, F)
+    import mouette as M
+    from mouette.mesh.mesh_data import RawMeshData
+    raw = RawMeshData()
+    if int_mode == "numpy":
+        raw.vertices += [np.array([int(x) for x in v], dtype=np.int64) for v in V]
+    else:
+        raw.vertices += [[int(x) for x in v] for v in V]
+    raw.faces += [list(f) for f in F]
+    return M.mesh.SurfaceMesh(raw)
+
+
+def build_volume(V, C, int_mode):
+    if not int_mode:
+        return volume_from(V, C)
+    import mouette as M
+    from mouette.mesh.mesh_data import RawMeshData
+    raw = RawMeshData()
+    if int_mode == "numpy":
+        raw.vertices += [np.array([int(x) for x in v], dtype=np.int64) for v in V]
+    else:
+        raw.vertices += [[int(x) for x in v] for v in V]
+    raw.cells += [list(c) for c in C]
+    return M.mesh.VolumeMesh(raw)
+
+
+def snapshot(m, kind):
+    """coordinates and element lists of a mesh, to assert that operators do not modify their argument"""
+    V = [[float(x) for x in v] for v in m.vertices]
+    E = [tuple(ints(e)) for e in m.edges]
+    if kind == "surface":
+        return V, E, [tuple(ints(f)) for f in m.faces]
+    if kind == "volume":
+        return V, E, [tuple(ints(c)) for c in m.cells]
+    return V, E, []
 
 
 # ============================================================================================ helpers
@@ -65,6 +123,16 @@ def relclose(A, B, tol=TOL):
         return False
     s = max(amax(A), amax(B))
     return bool(np.max(np.abs(A - B)) <= tol * s)
+
+
+def relclose_entrywise(d, exp, tol=TOL):
+    """every entry within tol of its own expected value (for positive diagonals with a wide dynamic range)"""
+    d = np.asarray(d, dtype=float); exp = np.asarray(exp, dtype=float)
+    if d.shape != exp.shape:
+        return False
+    if not (np.all(np.isfinite(d)) and np.all(np.isfinite(exp))):
+        return False
+    return bool(np.all(np.abs(d - exp) <= tol * np.abs(exp)))
 
 
 def worst(A, B):
@@ -185,6 +253,14 @@ def graph_ops(ctx, M, m, nV, medges, Vn, wseed, prefix=""):
             exp[(a, b)] = wvals[e]
             exp[(b, a)] = wvals[e]
         check_entries(ctx, sig, A, (nV, nV), exp, f"adjacency_matrix(weights={wname})")
+    ctx.check(cw == custom_weights(nE, wseed), prefix + "arguments:weights-modified", "adjacency_matrix changed the custom weights dict it was given")
+    ok, A = ctx.call(prefix + "adjacency[custom,2nd]", M.operators.adjacency_matrix, m, cw)
+    if ok:
+        exp = {}
+        for e, (a, b) in enumerate(medges):
+            exp[(a, b)] = cw[e]
+            exp[(b, a)] = cw[e]
+        check_entries(ctx, prefix + "adjacency[custom,2nd]", A, (nV, nV), exp, "adjacency_matrix(weights=custom), second call with the same dict")
     # --- vertex to edge operator
     for oriented in (False, True):
         sig = prefix + f"vertex_to_edge[oriented={oriented}]"
@@ -252,7 +328,7 @@ def check_mass(ctx, M, sig, fun, m, n, base_ref, k, total, has_sqrt, has_format,
             continue
         if not inv and not sq:
             d0 = d
-            ctx.check(relclose(d, base_ref), sig + ":entries", f"{what}: " + worst(d, base_ref))
+            ctx.check(relclose_entrywise(d, base_ref), sig + ":entries", f"{what}: " + worst(d / base_ref, np.ones_like(d)) + " (ratio library/reference)")
             ctx.check(abs(d.sum() - k * total) <= TOL * k * total, sig + ":sum",
                       f"{what}: entries sum to {d.sum()!r}, expected {k} x total measure {total!r} = {k * total!r}")
         elif d0 is not None:
@@ -261,7 +337,9 @@ def check_mass(ctx, M, sig, fun, m, n, base_ref, k, total, has_sqrt, has_format,
                 exp = np.sqrt(exp)
             if inv:
                 exp = 1.0 / exp
-            ctx.check(relclose(d, exp), s + ":entrywise", f"{what}({kw}) is not the entrywise transform of the plain matrix: " + worst(d, exp))
+            ctx.check(relclose_entrywise(d, exp), s + ":entrywise", f"{what}({kw}) is not the entrywise transform of the plain matrix: " + worst(d / exp, np.ones_like(d)) + " (ratio got/expected)")
+            if inv and not sq:
+                ctx.check(relclose_entrywise(d * d0, np.ones_like(d)), s + ":inverse-times-plain", f"{what}: M^-1 M != I, diagonal products range {float((d * d0).min())!r} .. {float((d * d0).max())!r}")
     if has_format:
         s = f"{sig}[format]"
         ok, mat = ctx.call(s, fun, m, format=fmt)
@@ -305,9 +383,23 @@ def angles_ok(V, F):
 
 @st.composite
 def tri_case(draw):
-    kind = draw(st.sampled_from(["closed", "closed", "bordered", "bordered", "bordered", "delaunay", "planar", "planar"]))
+    kind = draw(st.sampled_from(["closed", "closed", "bordered", "bordered", "bordered", "delaunay", "planar", "planar", "lattice"]))
     planar = False
-    if kind == "closed":
+    if kind == "lattice":
+        # integer lattice: sheared / stretched / tilted grid with integer coordinates (handed to the library as ints)
+        nu, nv = draw(st.sampled_from([1, 2, 3, 4])), draw(st.sampled_from([1, 2, 3, 4]))
+        V0, F0 = G.op_triangulate_all(*G.grid(nu, nv), draw(st.sampled_from([0, 1])))
+        sx, sy, k = draw(st.sampled_from([1, 2, 3])), draw(st.sampled_from([1, 2, 3])), draw(st.sampled_from([-1, 0, 1]))
+        c1, c2 = draw(st.sampled_from([0, 0, 1, 2])), draw(st.sampled_from([0, 0, 1, -1]))
+        Vl = [[float(sx * round(v[0]) + k * round(v[1])), float(sy * round(v[1])), float(c1 * round(v[0]) + c2 * round(v[1]))] for v in V0]
+        if not angles_ok(Vl, F0):
+            Vl = [[float(round(v[0])), float(round(v[1])), 0.0] for v in V0]
+            c1 = c2 = 0
+        planar = (c1 == 0 and c2 == 0)
+        if planar and not planar_embedded(Vl, F0):
+            raise AssertionError("lattice generator produced a folded mesh")
+        s = {"V": Vl, "F": [list(f) for f in F0], "tags": ["base=lattice"] + G.tags_of(Vl, F0)}
+    elif kind == "closed":
         s = draw(G.well_shaped_trisurf(max_faces=80, bordered=False))
     elif kind == "bordered":
         s = draw(G.well_shaped_trisurf(max_faces=80, bordered=True))
@@ -326,7 +418,7 @@ def tri_case(draw):
             V0, F0 = G.op_triangulate_all(*G.grid(2, 3), 0)
             s = {"V": [[float(v[0]), float(v[1]), 0.0] for v in V0], "F": [list(f) for f in F0], "tags": ["base=grid-fallback"] + G.tags_of(V0, F0)}
     V, F, tags = [list(map(float, v)) for v in s["V"]], [list(map(int, f)) for f in s["F"]], list(s["tags"])
-    nsub = draw(st.sampled_from([0] * 8 + [1, 1, 1, 2]))
+    nsub = draw(st.sampled_from([0] * 8 + [1, 1, 1, 2])) if kind != "lattice" else 0
     for _ in range(nsub):
         if 4 * len(F) <= 600:
             V, F = midpoint_subdivide(V, F)
@@ -334,7 +426,7 @@ def tri_case(draw):
     if draw(st.booleans()):
         F = [f[::-1] for f in F]
         tags.append("orientation-reversed")
-    if draw(st.booleans()):
+    if kind != "lattice" and draw(st.booleans()):
         if planar:
             th = draw(st.integers(0, 359)) * math.pi / 180
             c, s_ = math.cos(th), math.sin(th)
@@ -343,16 +435,18 @@ def tri_case(draw):
         else:
             V = G.rigid(V, draw(st.integers(0, 10 ** 6)))
         tags.append("moved")
-    scale = draw(st.sampled_from([1.0, 1.0, 0.05, 20.0]))
+    scale = draw(st.sampled_from(SCALES if kind != "lattice" else [1.0, 1.0, 2.0, 10.0, 1e3]))
     if scale != 1.0:
         V = [[x * scale for x in v] for v in V]
-        tags.append(f"scale={scale}")
+    tags.append(scale_label(scale))
     isolated = draw(st.sampled_from([False] * 9 + [True]))
     if isolated:
-        V = V + [[0.5 * scale, 0.25 * scale, 0.0 if planar else 0.125 * scale]]
+        V = V + ([[-1.0 * scale, -1.0 * scale, 0.0 if planar else 3.0 * scale]] if kind == "lattice" else
+                 [[0.5 * scale, 0.25 * scale, 0.0 if planar else 0.125 * scale]])
         tags.append("isolated-last-vertex")
+    int_mode = draw(st.sampled_from(["numpy", "python"])) if all_integral(V) else None
     a = [draw(st.integers(-30, 30)) / 10 for _ in range(3)]
-    return {"V": [[float(x) for x in v] for v in V], "F": F, "tags": tags, "planar": planar, "isolated": isolated,
+    return {"V": [[float(x) for x in v] for v in V], "F": F, "tags": tags, "planar": planar, "isolated": isolated, "int_mode": int_mode,
             "a": a, "b": draw(st.integers(-20, 20)) / 10,
             "pre": draw(st.sampled_from(["none", "none", "angles"])),
             "conn": draw(st.sampled_from(["faces", "flat"])) if planar else "faces",
@@ -397,7 +491,11 @@ def fn_surface(case, ctx):
 
     M.config.sort_neighborhoods = bool(case.get("sort", True))      # restored by the runner after the case
     ctx.label("sort=" + str(bool(case.get("sort", True))))
-    m = surface_from(V, F)
+    int_mode = case.get("int_mode")
+    if int_mode and not all_integral(V):
+        raise AssertionError("integer coordinates requested for non-integral vertices")
+    ctx.label("coords=int-" + int_mode if int_mode else "coords=float")
+    m = build_surface(V, F, int_mode)
     if case["pre"] == "angles":
         ok, _ = ctx.call("corner_angles", M.attributes.corner_angles, m)
         if not ok:
@@ -408,6 +506,7 @@ def fn_surface(case, ctx):
     nE = len(medges)
     eid = {key(e): i for i, e in enumerate(medges)}
     state = {}
+    snap0 = snapshot(m, "surface")
 
     # ---------------------------------------------------------------- groups
     def g_laplacian():
@@ -497,6 +596,8 @@ def fn_surface(case, ctx):
                 ctx.check(relclose(E, Lref), sig + ":energy-vs-laplacian", "Re(G* A G) != laplacian(mesh) " + worst(E, Lref))
         if Dc is not None and Dr is not None:
             ctx.check(relclose(Dr[0::2] + 1j * Dr[1::2], Dc), f"gradient[{which}]:real-vs-complex", "rows 2f, 2f+1 of the real gradient are not Re, Im of the complex one")
+        BX2 = np.array([[float(t) for t in conn.base(i)[0]] for i in range(nF)]); BY2 = np.array([[float(t) for t in conn.base(i)[1]] for i in range(nF)])
+        ctx.check(np.array_equal(BX2, BX) and np.array_equal(BY2, BY), "arguments:connection-modified", "gradient() changed the bases of the connection object it was given")
 
     def g_mass():
         if isolated:
@@ -576,12 +677,13 @@ def fn_surface(case, ctx):
     groups = [("laplacian", g_laplacian), ("gradient", g_gradient), ("mass", g_mass), ("graph", g_graph), ("dual", g_dual)]
     random.Random(case["group_seed"]).shuffle(groups)
     ctx.label("first-group=" + groups[0][0])
-    for _, g in groups:
+    for gname, g in groups:
         g()
+        ctx.check(snapshot(m, "surface") == snap0, "arguments:mesh-modified", f"operator group '{gname}' changed the vertices / edges / faces of the mesh it was given")
 
     # ---------------------------------------------------------------- connection Laplacian on vertices (own fresh mesh)
     if case.get("vconn") and not isolated:
-        m2 = surface_from(V, F)
+        m2 = build_surface(V, F, int_mode)
         try:
             vc = M.processing.SurfaceConnectionVertices(m2)
         except Exception as e:       # building the vertex connection is not part of this property
@@ -617,12 +719,13 @@ def fn_surface(case, ctx):
 def tet_case(draw):
     t = draw(GT.tets(max_cells=60))
     V = t["V"]
-    scale = draw(st.sampled_from([1.0, 1.0, 0.05, 20.0]))
+    scale = draw(st.sampled_from(SCALES))
     tags = list(t["tags"])
     if scale != 1.0:
         V = [[x * scale for x in v] for v in V]
-        tags.append(f"scale={scale}")
-    return {"V": V, "C": t["C"], "tags": tags, "wseed": draw(st.integers(0, 10 ** 6)), "fmt": draw(st.sampled_from(FORMATS)),
+    tags.append(scale_label(scale))
+    int_mode = draw(st.sampled_from(["numpy", "python"])) if all_integral(V) else None
+    return {"V": V, "C": t["C"], "tags": tags, "int_mode": int_mode, "wseed": draw(st.integers(0, 10 ** 6)), "fmt": draw(st.sampled_from(FORMATS)),
             "pre": draw(st.booleans()), "group_seed": draw(st.integers(0, 10 ** 6))}
 
 
@@ -642,7 +745,11 @@ def fn_volume(case, ctx):
     assert relclose(vols, R.tet_volumes_det(Vn, C), 1e-9), "reference volume self-check"
     total = float(vols.sum())
 
-    m = volume_from(V, C)
+    int_mode = case.get("int_mode")
+    if int_mode and not all_integral(V):
+        raise AssertionError("integer coordinates requested for non-integral vertices")
+    ctx.label("coords=int-" + int_mode if int_mode else "coords=float")
+    m = build_volume(V, C, int_mode)
     if case["pre"]:
         ok, _ = ctx.call("cell_volume", M.attributes.cell_volume, m)
         if not ok:
@@ -708,8 +815,10 @@ def fn_volume(case, ctx):
     groups = [("vlap", g_vlap), ("tlap", g_tlap), ("mass", g_mass), ("graph", g_graph)]
     random.Random(case["group_seed"]).shuffle(groups)
     ctx.label("first-group=" + groups[0][0])
-    for _, g in groups:
+    snap0 = snapshot(m, "volume")
+    for gname, g in groups:
         g()
+        ctx.check(snapshot(m, "volume") == snap0, "arguments:mesh-modified", f"operator group '{gname}' changed the vertices / edges / cells of the mesh it was given")
 
 
 # ============================================================================================ graphs: polylines and polygon surfaces
